@@ -7,17 +7,21 @@ RULE = ("every run starts with the repo's own unit-test vectors (sharpe.rs, sort
         "whose product with the factor overflows; 25 % mean == risk-free; 1/3 zero risk; scale A->B, A->C, B->C triples) and 55 % tear-sheet cases "
         "(`init`, 0-20 (thorough 0-40) `pos` with all-win / all-loss / equal-loss / single-loss-first / mixed / break-even-heavy biases, advancing, equal and "
         "backward exit times, 25 % with non-whole-second times, interleaved and final `gen` over all interval kinds; 4 % end with a position on which "
-        "the code panics). Thorough additionally enumerates scale over 4 metrics x 10 x 10 intervals x 9 values (3 600 ops) and every "
+        "the code panics: zero entry price or zero quantity). The corpus (corpus/C16M/review_B.ops, run first) holds the hand-made inputs of the theorem review: zero-cost exits "
+        "(panic, also after a generate), the strictly losing history whose Calmar ratio is Decimal::MAX, the Daily <-> Annual252 round trip, negative zero, negative entry prices, "
+        "the half-unit saturation boundary, i64-sized TimeDeltas, a zero-length current interval, backwards time. Thorough additionally enumerates scale over 4 metrics x 10 x 10 intervals x 9 values (3 600 ops) and every "
         "(risk-free, mean, risk) sign / zero combination of calculate and calculate-then-scale (3 x 144 ops). A case is distinct by the SHA-1 of its "
         "op lines and non-trivial when the implementation's observation block changes at least once")
 ASSUMPTIONS = [
     "exact rational arithmetic: rust_decimal rounding is not modelled; every metric value is compared to 1e-18 (absolute or relative); the sentinels Decimal::MAX / Decimal::MIN are compared literally",
     "Decimal::sqrt is a parameter of the model (theorems hold for every function, laws name the property they need); the drivers plug in sqrtApprox (root truncated to 30 places, error bound proved in C17); the panic inside rust_decimal's Decimal::sqrt ('geo mean circuit breaker', F10) is not modelled - scale() calls the library root, no panic was observed on the generated interval ratios",
-    "checked_mul overflow is modelled as |a*b| > Decimal::MAX (the half unit below the rounding boundary is not generated); overflow of checked_div(..).unwrap() in calculate (quotient beyond Decimal::MAX, a panic) is not modelled and not generated",
+    "scale_scale, scale_round_trip and sharpe_scaling_is_iid_consistent are laws of the IDEAL square root (and of the identity, i.e. RateOfReturn): they need the law to be multiplicative resp. an exact root at the factors involved, which no rational-valued root satisfies at a non-square factor - in particular not between Daily and Annual252 / Annual365 (kernel-checked counterexamples sqrtApprox_not_multiplicative_D_A252, sqrtApprox_not_exact_root_252, round_trip_deviates_witness). What holds for the root that is computed: scale_scale_value (no assumption on the law) and the round-trip error bound scale_round_trip_error / sqrtApprox_round_trip_error (|v| * 1e-30 * (sqrt(B/A) + sqrt(A/B) + 1e-30) for the drivers' root; a root within eps from below in general)",
+    "checked_mul overflow is modelled as |a*b| > Decimal::MAX (the half unit below the rounding boundary is not generated); overflow of checked_div(..).unwrap() in calculate (quotient beyond Decimal::MAX, a panic: `calc sharpe 0 7e27 1e-10 D`) is not modelled and not generated",
+    "the plain Decimal operators panic on overflow and the exact model does not: `mean - risk_free` in calculate (`calc sharpe -79228162514264337593543950335 79228162514264337593543950335 1 D`: the code panics 'Subtraction overflowed', the model returns 2*Decimal::MAX - theorem calculate_excess_overflow_witness), `pnl_raw += pnl_realised` (`pos 1000 79228162514264337593543950335 100 1; pos 2000 1 100 1`: 'Addition overflowed'), the Welford accumulators of C17. Range limits of the number type (DESIGN 3 / 13.9: examined boundaries), not generated: PnL and returns are small decimals",
     "DateTime / TimeDelta are integers in milliseconds (chrono's nanoseconds and its i64 range are not modelled)",
-    "the spec driver (oracle) states the documented intent on extended values (+-infinity for the zero-risk conventions, exact interval lengths, v*sqrt(B/A) resp. v*(B/A)) and is SILENT where the documentation is: (a) the scaled value of a sentinel (Decimal::MAX / MIN) input, (b) interval lengths that are not whole seconds (the code truncates to whole seconds: deviation bounded by theorem periods_truncation_bounds), (c) a current interval shorter than one second, (d) results outside the Decimal range, (e) max drawdown / Calmar of PnL curves whose first value is not positive (C18's precondition). The concrete model mirrors the code on all of these and is compared on every case",
-    "every closed position has price_entry_average * quantity_abs_max != 0 (the code panics otherwise; harness and model both report `panic`); returns are generated with finite decimal expansions so that `mean == risk_free` in the zero-risk branch is not decided by rounding noise",
-    "theorems about TearSheetGenerator::generate concern a generator fed from init (any history, any number of earlier generate calls for the four metrics that do not read the drawdown generators; the first generate for Calmar's max drawdown, as in C18)",
+    "the spec driver (oracle) states the documented intent on extended values (+-infinity for the zero-risk conventions, exact interval lengths, v*sqrt(B/A) resp. v*(B/A)) and is SILENT where the documentation is: (a) the scaled value of a sentinel (Decimal::MAX / MIN) input, (b) interval lengths that are not whole seconds (the code truncates to whole seconds: deviation bounded by theorem periods_truncation_bounds), (c) a current interval shorter than one second, (d) results outside the Decimal range, (e) max drawdown / Calmar of PnL curves whose first value is not positive (C18's precondition; there the code reports no drawdown at all and, for a losing history scaled to a longer interval, calmar_ratio = Decimal::MAX: theorems never_positive_curve_reports_no_drawdown, sheet_calmar_strictly_losing_is_max, corpus case strictly-losing-calmar-max), (f) `name` / `secs` of a TimeDelta (only the three named intervals are documented). The concrete model mirrors the code on all of these and is compared on every case",
+    "a closed position with price_entry_average * quantity_abs_max == 0 makes the code PANIC (calculate_pnl_return is a plain Decimal division). The panic is an explicit outcome of the model (Model/Metrics.lean Exit.panics, Gen.updateChecked, Gen.runChecked; Props sheetChecked / Gen.execChecked = none) and theorems sheet_panics_iff / exec_panics_iff say exactly when it happens; harness and both driver modes print `panic` (the spec mode's `panic` line uses the model's predicate: it is a copy, not an independent oracle). The 'every history' theorems sheet_refines, sheet_win_rate_profit_factor, sheet_*_value, sheet_any_interleaving are statements about the TOTAL model function sheetOf (which continues with pnl / 0 = 0: witness zero_cost_exit_model_continues); what the code reports on the histories on which it does not panic is sheet_checked_refines. A cost whose two factors are non-zero but whose Decimal product rounds to zero (1e-20 * 1e-20) also panics in the code and not in the exact model: not generated. Returns are generated with finite decimal expansions so that `mean == risk_free` in the zero-risk branch is not decided by rounding noise",
+    "theorems about TearSheetGenerator::generate concern a generator fed from init: any history and any number of earlier generate calls for the SIX fields that do not read the drawdown generators (PnL, rate of return, Sharpe, Sortino, win rate, profit factor - three of the four metrics: sheet_any_interleaving); the FIRST generate for Calmar's max drawdown and the drawdown report, as in C18 (what later ones report is C16K's interleaved_generate_exact)",
     "TearSheetAssetGenerator::generate computes no risk-adjusted metric (balance_end and drawdowns only: C16 / C18); nothing to add here",
 ]
 SOURCE_FILES = ["barter/src/statistic/metric/sharpe.rs", "barter/src/statistic/metric/sortino.rs", "barter/src/statistic/metric/calmar.rs",
@@ -44,26 +48,47 @@ CLAIM = False
 TECHNIQUE = ("Lean 4: case analysis + field arithmetic over exact rationals for calculate/scale (sqrt abstract), refinement of the concrete model to an "
              "extended-value specification, induction over the list of closed positions for the tear-sheet generator (reusing the C17 / C18 refinements); "
              "correspondence of the model with the real metric types and TearSheetGenerator")
-LEVEL_TEXT = ("Sub-check of C16. 62 Lean theorems (lean/BarterModel/Props/C16M.lean) over a function-for-function model of SharpeRatio / SortinoRatio / "
+LEVEL_TEXT = ("Sub-check of C16. 82 Lean theorems (lean/BarterModel/Props/C16M.lean) over a function-for-function model of SharpeRatio / SortinoRatio / "
               "CalmarRatio / RateOfReturn (calculate, scale), the TimeInterval implementations and the whole TearSheetGenerator (init, update_from_position, "
               "generate; composed from the C17 DataSetSummary model, the C18 drawdown generators and C16's WinRate / ProfitFactor). Decimal::sqrt is abstract: "
               "every scale theorem holds for an arbitrary law (sqrt for the ratios, identity for RateOfReturn) and names the property of the law it needs at the "
-              "arguments involved. Full strength, all inputs: calculate refines the documented quotient with the zero-risk conventions MAX / MIN / 0 "
-              "(sharpe/sortino/calmar/ror_calculate_refines), sign and monotonicity in the mean incl. the conventions (sortino/calmar/sharpe_sign, *_mono_mean), "
-              "|drawdown| (calmar_abs_drawdown), dependence on the excess only (calculate_excess_only); scale = multiplication by law(|T|/|S|) when the product fits "
-              "(scale_value, ror_scale_linear, *_daily_to_annual252), always within [MIN, MAX] (scale_in_range), same interval = identity (scale_same_interval), "
-              "scale-then-scale = scale and round trip (scale_scale, scale_round_trip, ror_*), sign / order preservation with the exact proviso (scale_nonneg, "
-              "scale_nonpos, scale_mono, scale_mono_target), the IID justification of the root (sharpe_scaling_is_iid_consistent), interval facts "
-              "(named_interval_secs, secs_truncates, periods_daily_annual). Saturation theorems state what unwrap_or(Decimal::MAX) does: any overflow, negative included, "
-              "gives MAX (scale_saturates, scale_negative_overflow_flips_sign); Decimal::MAX survives factors >= 1 and shrinks to a finite number below 1 "
-              "(scale_max_preserved, scale_max_lost); Decimal::MIN becomes Decimal::MAX for factors > 1 (scale_min_becomes_max, very_bad_reported_as_very_good, "
-              "scale_deviates_from_spec_on_min, sheet_sortino_very_bad_is_max). Tear sheet, every history (induction, reusing run_eq_specSummary of C17 and "
-              "first_generate_report of C18): the generated sheet carries calculate-then-scale of the whole-dataset mean, the population std-dev of all / of the "
-              "negative returns and the max drawdown of the cumulative PnL curve over max(now-start, 1 s) (sheet_refines, sheet_factor, sheet_sharpe_value, "
-              "sheet_ror_value), C16's win rate / profit factor (sheet_win_rate_profit_factor), independent of interleaved generate calls for the six fields that do "
-              "not read the drawdown generators (sheet_any_interleaving). Partial (named _partial): refinement of scale to the extended-value spec holds on "
-              "whole-second intervals, finite fitting values only (scale_refines_spec_partial, ror_scale_refines_spec_partial); truncated intervals are bounded "
-              "(periods_truncation_bounds); on the sentinels the refinement is false (witness theorems above).")
+              "arguments involved. Full strength, all inputs: sign and monotonicity of calculate in the mean incl. the zero-risk conventions MAX / MIN / 0 "
+              "(sortino/calmar/sharpe_sign, *_mono_mean), |drawdown| (calmar_abs_drawdown), dependence on the excess only (calculate_excess_only), ratio_metrics_agree; "
+              "scale = multiplication by law(|T|/|S|) when the product fits (scale_value, ror_scale_linear), always within [MIN, MAX] (scale_in_range), same interval = "
+              "identity (scale_same_interval), sign / order preservation with the exact proviso (scale_nonneg, scale_nonpos, scale_zero, scale_zero_target, scale_mono, "
+              "scale_mono_target), interval facts (named_interval_secs, secs_truncates, periods_daily_annual, periods_mono_target). Two scale calls in a row, for an ARBITRARY "
+              "law: A -> B -> C multiplies by law(B/A) * law(C/B) (scale_scale_value); for every law that is a square root within eps from below (RootWithin - Decimal::sqrt and "
+              "the drivers' sqrtApprox are of this kind) the round trip A -> B -> A multiplies by a factor in (1 - eps*(law(B/A) + law(A/B) + eps), 1], so it never increases |v| "
+              "and deviates by at most |v| * eps * (law(B/A) + law(A/B) + eps) (scale_round_trip_error; for the drivers' root with eps = 1e-30: sqrtApprox_root_within, "
+              "sqrtApprox_round_trip_error). Laws of the IDEAL root only - they need the law to be multiplicative resp. an exact root at the factors, true of the identity "
+              "(ror_scale_scale, ror_scale_round_trip) and of a rational root at perfect squares only: scale_scale, scale_round_trip, sharpe_scaling_is_iid_consistent; the "
+              "kernel-checked counterexamples for the computed root between Daily and Annual252 / Annual365 are sqrtApprox_not_multiplicative_D_A252, "
+              "sqrtApprox_not_exact_root_252, round_trip_deviates_witness (0.05 Daily -> Annual252 -> Daily comes back below 0.05, by less than 1e-31). Saturation theorems state "
+              "what unwrap_or(Decimal::MAX) does: any overflow, negative included, gives MAX (scale_saturates, scale_negative_overflow_flips_sign); Decimal::MAX survives factors "
+              ">= 1 and shrinks to a finite number below 1 (scale_max_preserved, scale_max_lost); Decimal::MIN becomes Decimal::MAX for factors > 1 and MIN*factor otherwise "
+              "(scale_min_becomes_max, scale_min_shrinks, very_bad_reported_as_very_good, scale_deviates_from_spec_on_min). Tear sheet: the model's run carries the code's panic as "
+              "an explicit outcome (Gen.updateChecked / runChecked, sheetChecked, Gen.execChecked = none; the drivers print `panic` exactly then) and sheet_panics_iff / "
+              "exec_panics_iff / cost_zero_iff state when: iff some closed position has price_entry_average * quantity_abs_max = 0. For every history on which the code does NOT "
+              "panic (sheet_checked_refines; induction, reusing run_eq_specSummary of C17 and first_generate_report of C18) every return fed to the statistics is a genuine quotient "
+              "pnl / cost with cost != 0 and the generated sheet carries calculate-then-scale of the whole-dataset mean, the population std-dev of all / of the negative returns and "
+              "the max drawdown of the cumulative PnL curve over max(now-start, 1 s), the C18 drawdown report and C16's win rate / profit factor. The unguarded forms sheet_refines, "
+              "sheet_factor, sheet_sharpe_value, sheet_ror_value, sheet_win_rate_profit_factor are theorems about the TOTAL model function sheetOf, which continues with pnl / 0 = 0 "
+              "where the code panics: zero_cost_exit_model_continues is the witness at that excluded point (win rate 1, rate of return 0). Earlier generate calls do not influence "
+              "the six fields that do not read the drawdown generators - PnL, rate of return, Sharpe, Sortino, win rate, profit factor; not Calmar, not the drawdown report "
+              "(sheet_any_interleaving). Counter-theorems at the sheet level: sheet_sortino_very_bad_is_max; a history whose cumulative PnL never rises above zero (e.g. without a "
+              "single winning position: no_win_curve_never_positive) has NO drawdown in the sheet and 'max drawdown' 0 however much was lost "
+              "(never_positive_curve_reports_no_drawdown), so with mean < risk-free its Calmar ratio is reported as Decimal::MAX for every target interval longer than the trading "
+              "period (sheet_calmar_strictly_losing_is_max) and as MIN*factor otherwise (sheet_calmar_strictly_losing_shrinks); witness calmar_strictly_losing_witness = corpus case "
+              "strictly-losing-calmar-max (the real code prints calmar MAX, ddmax none); calculate_excess_overflow_witness marks where the Decimal range ends (the code panics, the "
+              "exact model does not). Partial (named _partial): refinement of scale to the extended-value spec holds on whole-second intervals, finite fitting values only "
+              "(scale_refines_spec_partial, ror_scale_refines_spec_partial; spec_preserves_infinities is the spec side); truncated intervals are bounded (periods_truncation_bounds); on "
+              "the sentinels the refinement is false (witness theorems above). Definitional / bookkeeping, not results: sharpe / sortino / calmar / ror_calculate_refines (the "
+              "extended-value spec of calculate is the same case distinction as the code, 'sigma = 0 => MAX even for a negative excess return' included: sharpe_zero_std_dev), "
+              "scale_is_scaleWith, scale_interval, interval_names, secs_of_whole, delta_secs_whole, scale_factor, scale_factor_zero_current, scale_factor_nonneg, "
+              "ror / sharpe_scale_daily_to_annual252, sheetChecked_eq; kernels_agree_with_source is the translator tie.")
 LEVEL_NOTE = ("Trusted: Lean kernel; axioms propext/Classical.choice/Quot.sound only; the hand-written model (tied by sampled correspondence on every run); "
               "harness and driver. Exact rationals instead of rust_decimal; Decimal::sqrt abstract in the theorems. "
+              "The oracle (spec mode) is independent of the model for calculate / scale / the sheet fields it prints (recomputed from the ops with the extended-value specification) and "
+              "silent where ASSUMPTIONS says so (measured by the theorem review, audit/sub/report_B.md: of 1072 generated sheets it constrains calmar on 248, sortino on 482, sharpe on 744); its `panic` line uses the model's predicate Exit.panics "
+              "and is therefore correspondence-only. "
               "Additionally tied by translation: calculate and scale of the four metrics and the TimeInterval implementors Daily / Annual252 / Annual365 are regenerated from the current source on every run by tools/rust2lean_sm.py (Generated/Machines2.lean) and proved equal to the model (kernels_agree_with_source; scale only where value x factor does not overflow, Decimal::sqrt an untranslated parameter); the translator and its prelude are trusted for that tie.")
